@@ -2,6 +2,7 @@
 #![allow(dead_code)]
 //   a5h gen <PROP> <tier> <seed> <outdir> [key=value ...]   -> ND-JSON traces + summary.json
 mod compact;
+mod frame;
 mod geo;
 mod geom;
 mod hilbert;
@@ -44,6 +45,9 @@ fn main() {
                 "C03" => geo::gen_c03(tier, seed, out),
                 "C04" => geo::gen_c04(tier, seed, out),
                 "C11" => geo::gen_c11(tier, seed, out, mc),
+                "C18" => frame::gen_c18(tier, seed, out),
+                "C06" => frame::gen_c06(tier, seed, out, kv.get("golden").map(|s| s.as_str()).unwrap_or("/verif/golden")),
+                "GOLDEN" => frame::make_golden(out),
                 "C09" => ids::gen_c09(tier, seed, out, mc, true),
                 _ => {
                     eprintln!("unknown property {}", prop);
